@@ -385,3 +385,124 @@ pub fn run_comments(job: &Value, t: &mut Trace) -> usize {
     }
     n
 }
+
+// ---------------------------------------------------------------------------------------------
+// growth: BlockListOps histories on the real BlockList
+
+/// the tag that tells instances of a kind apart, read back from a block
+fn tag_of(b: &flac_codec::metadata::BlockRef<'_>) -> Option<(&'static str, i64)> {
+    use flac_codec::metadata::BlockRef::*;
+    Some(match b {
+        Padding(p) => ("padding", u32::from(p.size) as i64),
+        Application(a) => ("application", a.id as i64),
+        VorbisComment(c) => ("comment", c.vendor_string.parse().unwrap_or(-1)),
+        SeekTable(s) => ("seektable", s.points.len() as i64),
+        Cuesheet(c) => ("cuesheet", c.lead_in_samples().map(|v| v as i64).unwrap_or(-2) / 588),
+        _ => return None,
+    })
+}
+
+pub fn run_blocklist(job: &Value, t: &mut Trace) -> usize {
+    use flac_codec::metadata::{Application, Cuesheet as Cs, OptionalBlockType, Padding, SeekPoint, SeekTable, Streaminfo, VorbisComment};
+    let kinds: Vec<String> = job["kinds"].as_array().unwrap().iter().map(|k| k.as_str().unwrap().to_string()).collect();
+    let si = || Streaminfo { minimum_block_size: 16, maximum_block_size: 16, minimum_frame_size: None, maximum_frame_size: None,
+        sample_rate: 44100, channels: 2.try_into().unwrap(), bits_per_sample: 16u32.try_into().unwrap(), total_samples: None, md5: None };
+    let mut n = 0;
+    for (hi, h) in job["histories"].as_array().unwrap().iter().enumerate() {
+        n += 1;
+        t.emit(json!({"ev": "reset", "id": hi as i64}));
+        let mut bl = BlockList::new(si());
+        for step in h.as_array().unwrap() {
+            let op = &step["op"];
+            let k = op["k"].as_str().unwrap_or("");
+            let tg = op["t"].as_u64().unwrap_or(0);
+            let mut back: Vec<i64> = vec![];
+            let r = catch(|| match op["op"].as_str().unwrap() {
+                "insert" => match k {
+                    "padding" => { if let Some(o) = bl.insert(Padding { size: (tg as u32).try_into().unwrap() }) { back.push(u32::from(o.size) as i64) } }
+                    "application" => { if let Some(o) = bl.insert(Application { id: tg as u32, data: vec![] }) { back.push(o.id as i64) } }
+                    "comment" => { if let Some(o) = bl.insert(VorbisComment { vendor_string: tg.to_string(), fields: vec![] }) { back.push(o.vendor_string.parse().unwrap_or(-1)) } }
+                    "seektable" => {
+                        let pts: Vec<SeekPoint> = (0..tg).map(|_| SeekPoint::Placeholder).collect();
+                        if let Some(o) = bl.insert(SeekTable { points: pts.try_into().ok().expect("placeholders") }) { back.push(o.points.len() as i64) }
+                    }
+                    _ => {
+                        // lead-in = tag sectors: a CD-DA sheet whose first track starts after a pre-gap cannot carry it, so use
+                        // a non-CD-DA sheet? The lead-in is only stored for CD-DA sheets; tag it through the track offset instead
+                        let text = format!("TRACK 01 AUDIO\n  INDEX 01 00:00:00\nTRACK 02 AUDIO\n  INDEX 01 {:02}:{:02}:{:02}\n", tg / 4500, (tg / 75) % 60, tg % 75);
+                        let c = Cs::parse(588 * 1_000_000, &text).expect("cue text");
+                        if let Some(o) = bl.insert(c) { back.push(cue_tag(&o)) }
+                    }
+                },
+                "remove" => match k {
+                    "padding" => bl.remove::<Padding>(),
+                    "application" => bl.remove::<Application>(),
+                    "comment" => bl.remove::<VorbisComment>(),
+                    "seektable" => bl.remove::<SeekTable>(),
+                    _ => bl.remove::<Cs>(),
+                },
+                "extract" => match k {
+                    "padding" => back = bl.extract::<Padding>().map(|o| u32::from(o.size) as i64).collect(),
+                    "application" => back = bl.extract::<Application>().map(|o| o.id as i64).collect(),
+                    "comment" => back = bl.extract::<VorbisComment>().map(|o| o.vendor_string.parse().unwrap_or(-1)).collect(),
+                    "seektable" => back = bl.extract::<SeekTable>().map(|o| o.points.len() as i64).collect(),
+                    _ => back = bl.extract::<Cs>().map(|o| cue_tag(&o)).collect(),
+                },
+                _ => {
+                    let key = op["key"].clone();
+                    bl.sort_by(|ty| {
+                        let name = match ty {
+                            OptionalBlockType::Padding => "padding",
+                            OptionalBlockType::Application => "application",
+                            OptionalBlockType::VorbisComment => "comment",
+                            OptionalBlockType::SeekTable => "seektable",
+                            OptionalBlockType::Cuesheet => "cuesheet",
+                            _ => "other",
+                        };
+                        key[name].as_i64().unwrap_or(99)
+                    })
+                }
+            });
+            let tag = |b: &flac_codec::metadata::BlockRef<'_>| -> Option<(&'static str, i64)> {
+                match b {
+                    flac_codec::metadata::BlockRef::Cuesheet(c) => Some(("cuesheet", cue_tag(c))),
+                    other => tag_of(other),
+                }
+            };
+            let list: Vec<Value> = bl.blocks().filter_map(|b| tag(&b)).map(|(k, v)| json!([k, v])).collect();
+            let mut get = serde_json::Map::new();
+            let mut all = serde_json::Map::new();
+            for kd in &kinds {
+                let (g, a): (i64, Vec<i64>) = match kd.as_str() {
+                    "padding" => (bl.get::<Padding>().map(|o| u32::from(o.size) as i64).unwrap_or(0), bl.get_all::<Padding>().map(|o| u32::from(o.size) as i64).collect()),
+                    "application" => (bl.get::<Application>().map(|o| o.id as i64).unwrap_or(0), bl.get_all::<Application>().map(|o| o.id as i64).collect()),
+                    "comment" => (bl.get::<VorbisComment>().map(|o| o.vendor_string.parse().unwrap_or(-1)).unwrap_or(0), bl.get_all::<VorbisComment>().map(|o| o.vendor_string.parse().unwrap_or(-1)).collect()),
+                    "seektable" => (bl.get::<SeekTable>().map(|o| o.points.len() as i64).unwrap_or(0), bl.get_all::<SeekTable>().map(|o| o.points.len() as i64).collect()),
+                    _ => (bl.get::<Cs>().map(cue_tag).unwrap_or(0), bl.get_all::<Cs>().map(cue_tag).collect()),
+                };
+                get.insert(kd.clone(), json!(g));
+                all.insert(kd.clone(), json!(a));
+            }
+            // get_pair_mut over a few type pairs (both orders)
+            let mut pairs: Vec<Value> = vec![];
+            {
+                let (a, b) = bl.get_pair_mut::<VorbisComment, SeekTable>();
+                pairs.push(json!(["comment", "seektable", a.map(|o| o.vendor_string.parse().unwrap_or(-1)).unwrap_or(0), b.map(|o| o.points.len() as i64).unwrap_or(0)]));
+                let (a, b) = bl.get_pair_mut::<SeekTable, VorbisComment>();
+                pairs.push(json!(["seektable", "comment", a.map(|o| o.points.len() as i64).unwrap_or(0), b.map(|o| o.vendor_string.parse().unwrap_or(-1)).unwrap_or(0)]));
+                let (a, b) = bl.get_pair_mut::<Padding, Application>();
+                pairs.push(json!(["padding", "application", a.map(|o| u32::from(o.size) as i64).unwrap_or(0), b.map(|o| o.id as i64).unwrap_or(0)]));
+                let (a, b) = bl.get_pair_mut::<Application, VorbisComment>();
+                pairs.push(json!(["application", "comment", a.map(|o| o.id as i64).unwrap_or(0), b.map(|o| o.vendor_string.parse().unwrap_or(-1)).unwrap_or(0)]));
+            }
+            t.emit(json!({"ev": "bstep", "id": hi as i64, "op": op, "ret": if r.is_ok() { "ok" } else { "panic" }, "list": list, "back": back,
+                "get": Value::Object(get), "all": Value::Object(all), "pairs": pairs}));
+        }
+    }
+    n
+}
+
+/// the tag of a cue sheet made by run_blocklist: the second track's offset in sectors
+fn cue_tag(c: &Cuesheet) -> i64 {
+    c.tracks().nth(1).map(|t| (t.offset / 588) as i64).unwrap_or(-3)
+}
